@@ -1233,6 +1233,13 @@ class Module(ABC):
                 np.concatenate([self.base.groups[group_name], self._nodes_in_view])
             )
 
+    def _edge_state_names(self) -> List[str]:
+        """Names of everything that is stored per synapse type and addressed by edges.
+
+        These are the synaptic states and the synaptic currents (`i_<synapse name>`).
+        Recordings and clamps of them store the global edge index."""
+        return self.base.synapse_state_names + self.base.synapse_current_names
+
     def _edge_inds_within_type(self) -> np.ndarray:
         """Return, for every edge, its position among the edges of its synapse type.
 
@@ -1753,7 +1760,7 @@ class Module(ABC):
         state_names = all_externals if state_name is None else [state_name]
         for state_name in state_names:
             if state_name in self.externals:
-                is_edge_state = state_name in self.base.synapse_state_names
+                is_edge_state = state_name in self._edge_state_names()
                 keep_inds = ~np.isin(
                     self.base.external_inds[state_name],
                     self._edges_in_view if is_edge_state else self._nodes_in_view,
@@ -1900,7 +1907,7 @@ class Module(ABC):
         for key in externals.keys():
             if key not in ["i", "v"]:
                 inds = external_inds[key]
-                if key in self.synapse_state_names:
+                if key in self._edge_state_names():
                     # Clamps of synaptic states are indexed by the global edge index.
                     inds = jnp.asarray(self._edge_inds_within_type())[inds]
                 u[key] = u[key].at[inds].set(externals[key])
@@ -2529,7 +2536,7 @@ class View(Module):
             self.recordings = pd.DataFrame()
         else:
             # Recordings of synaptic states refer to edges, all others to compartments.
-            is_edge_state = ptr_recs["state"].isin(self.base.synapse_state_names)
+            is_edge_state = ptr_recs["state"].isin(self._edge_state_names())
             rec_in_view = np.where(
                 is_edge_state,
                 ptr_recs["rec_index"].isin(self._edges_in_view),
@@ -2637,7 +2644,7 @@ class View(Module):
         for (name, inds), data in zip(
             self.base.external_inds.items(), self.base.externals.values()
         ):
-            is_edge_state = name in self.base.synapse_state_names
+            is_edge_state = name in self._edge_state_names()
             in_view = np.isin(
                 inds, self._edges_in_view if is_edge_state else self._nodes_in_view
             )
